@@ -8,11 +8,6 @@ step of the Rust code (`new`, `syn`, `ack`, `push`, `append_data`, `frag_off`,
 -/
 namespace Resynth
 
-structure Sock where
-  ip : Nat
-  port : Nat
-  deriving Repr, DecidableEq, Inhabited
-
 structure TcpSeg where
   raw : Bool
   eth : Bytes
